@@ -303,8 +303,19 @@ def evaluate(ctx, model, impl, lin, cases, tag, stats):
     for l in raw.split("\n"):
         if l.startswith("monitor hang"):
             hang = l.split(" ")[2] if len(l.split(" ")) > 2 else "?"
+    crashed = None
+    if rc2 not in (0, 3):
+        # the harness died (signal, abort): the first case without output is the one that killed it
+        for c in cases:
+            if c["id"] not in ilog or ilog[c["id"]]["end"] is None:
+                crashed = c["id"]
+                found.append(("MSPriorityQueue: the real code crashes (harness exit status %d) on this case" % rc2, c, {"exit_status": rc2}))
+                stats["crash"] = stats.get("crash", 0) + 1
+                break
     for c in cases:
         m = mlog.get(c["id"]); i = ilog.get(c["id"])
+        if crashed is not None and (i is None or i["end"] is None):
+            continue    # not run (or cut short) because the harness died
         if hang == c["id"]:
             found.append(("MSPriorityQueue: the run does not terminate (a lock is never released or the heap is corrupted)", c, {"hang": True}))
             stats["hang"] = stats.get("hang", 0) + 1
